@@ -155,6 +155,11 @@ def check_one(sc, sp, f, last_req=None, f2=None):
         if not any(h[0] == "log" and h[1] in ("ERROR", "CRITICAL") for h in hist):
             viols.append({"kind": "failure_swallowed", "features": feats,
                           "detail": {"fault": f, "outcome": list(oc)}})
+    if oc[0] == "exception" and oc[1] == "CancelledError":
+        # nobody cancelled run(): the failure itself has been lost and what the caller gets is a bare
+        # CancelledError (not even an Exception), which says nothing about any simulator
+        viols.append({"kind": "failure_replaced_by_cancellation", "features": feats,
+                      "detail": {"fault": f, "outcome": list(oc)}})
     # survivors whose own request to mosaik (set_data/get_data from inside a step) is unanswered:
     # they started that step from a request that was still in flight when mosaik shut down
     answered = {h[3] for h in hist if h[0] in ("async_done", "async_err")}
